@@ -43,8 +43,8 @@ package catchup
 //   cert/…       agreement hands the service a certificate for the next round (periodicSync ->
 //                syncCert -> fetchRound -> EnsureBlock), rounds 1..2 one after the other.
 // Script families: D0 (all genuine), D1, D2 = every script with exactly 1 / 2 non-genuine answers.
-// Quick: add D0-D2, val D0-D1, addw D0-D1, cert D0-D2, bound 2. Thorough: all modes D0-D2, cert
-// D0-D3, bound 3.
+// Quick: add D0-D2, val D0-D1, addw D0-D1, cert D0-D2, bound 2. Thorough: add and val D0-D2, addw
+// D0-D1 (and addw D2 on a 4-block chain), cert D0-D3, bound 3.
 //
 // Oracle (reference = the chain itself, boring Go): the k-th ledger write call made by the
 // service is for round k exactly (no gap, no repeat, judged against the ledger height at the moment
@@ -1055,15 +1055,16 @@ func TestVerif_C30(t *testing.T) {
 	}
 	var jobs []job
 	famCount := map[string]int{}
-	addSync := func(fam, mode string, scripts []c30Script, bnd int) {
+	addSyncOn := func(chain *c30Chain, fam, mode string, scripts []c30Script, bnd int) {
 		for _, sc := range scripts {
 			sc := sc
 			jobs = append(jobs, job{fam, func(st *c30Stats) *ve.SchedProgram {
-				return c30SyncProgram(ch, mode, sc, bnd, st, len(sc) == 0)
+				return c30SyncProgram(chain, mode, sc, bnd, st, len(sc) == 0)
 			}})
 			famCount[fam]++
 		}
 	}
+	addSync := func(fam, mode string, scripts []c30Script, bnd int) { addSyncOn(ch, fam, mode, scripts, bnd) }
 	d0 := []c30Script{nil}
 	// A fetchAndWrite that gives up (unsupported protocol) makes pipelinedFetch return; if that
 	// round is neither the first nor the last one, pipelinedFetch launches further rounds and
@@ -1082,7 +1083,14 @@ func TestVerif_C30(t *testing.T) {
 	addSync("sync-add-D2", "add", d2, bound)
 	if ve.Thorough() {
 		addSync("sync-val-D2", "val", d2, bound)
-		addSync("sync-addw-D2", "addw", d2, bound)
+		// the slow-ledger mode multiplies the schedules per script: its D2 family runs on a 4-block chain
+		ch4 := c30BuildChain(4)
+		if err := ch4.selfCheck(); err != nil {
+			t.Fatalf("harness: %v", err)
+		}
+		addSyncOn(ch4, "sync-addw-D2-tip4", "addw", c30Scripts(4, 2, func(round, entry int) bool {
+			return entry != c30UnsupportedProto || round == 1 || round == 4
+		}), bound)
 	}
 	certRounds := 2
 	var certScripts []c30Script
